@@ -266,18 +266,27 @@ Definition gwfb (g : graph) : bool :=
   forallb (fun e => let '(a, b, _) := e in
                     LGraph.mem a (node_ids g) && LGraph.mem b (node_ids g) && negb (N.eqb a b)) (gedges g).
 
+(** no second entry for an unordered node pair (networkx Graph: one edge per pair) *)
+Fixpoint simpleb (es : list (N * N * elab)) : bool :=
+  match es with
+  | [] => true
+  | (a, b, _) :: r => (match find_edge a b r with None => true | Some _ => false end) && simpleb r
+  end.
+(** executable form of [LGraph.wf] *)
+Definition wfb (g : graph) : bool := gwfb g && simpleb (gedges g).
+
 (** ---------- observables ---------- *)
 Definition tmapping (m : mapping) : tok := tset (tpair tN tN) m.
 Definition tcomps (cs : list (list N)) : tok := tset (tset tN) cs.
 
 (** order-insensitive run: oracle := the verified enumerator; results as multisets *)
 Definition run_set (H P : graph) (cfgs : list cfg) : tok :=
-  L [ tbool (gwfb H && gwfb P); tcomps (comps H); tcomps (comps P);
+  L [ tbool (wfb H && wfb P); tcomps (comps H); tcomps (comps P);
       tlist (fun c => L [ tbool (quick_pre_filter H P (c_thr c));
                           tset tmapping (find (monos_on H P) c H P) ]) cfgs ].
 
 (** order-sensitive run: oracle := recorded networkx enumerations *)
 Definition run_list (H P : graph) (t : table) (cfgs : list cfg) : tok :=
-  L [ tbool (gwfb H && gwfb P); tbool (table_ok H P t); tcomps (comps H); tcomps (comps P);
+  L [ tbool (wfb H && wfb P); tbool (table_ok H P t); tcomps (comps H); tcomps (comps P);
       tlist (fun c => L [ tbool (quick_pre_filter H P (c_thr c));
                           tlist tmapping (find (lookup t) c H P) ]) cfgs ].
